@@ -14,6 +14,9 @@ import (
 	"math"
 	"os"
 	"path/filepath"
+	"runtime"
+	"strconv"
+	"strings"
 	"sync"
 	"testing"
 	"time"
@@ -161,6 +164,8 @@ type c04Card struct {
 	released int          // bytes released in the run phase
 	relCalls int          // ReleaseBytes calls of the run phase
 	relAtLaunch int
+	alignGID    int64 // goroutine that calls StartRun
+	alignRel    int   // bytes released by that goroutine in the run phase
 	errMsg   string
 }
 
@@ -274,6 +279,9 @@ func (k *c04Card) ReleaseBytes(n int) error {
 	}
 	k.rd += n
 	k.released += n
+	if k.alignGID != 0 && c04GoroutineID() == k.alignGID {
+		k.alignRel += n // released by StartRun itself (frame alignment), not by the reader it launches
+	}
 	k.relCalls++
 	if k.c.RelErrAt > 0 && k.relCalls == k.c.RelErrAt {
 		// the driver moves its read index first and then reports a problem (as the real adapter does): the bytes are released
@@ -292,7 +300,21 @@ func (k *c04Card) arm() int {
 			k.held = true
 		}
 	}
-	return k.released
+	// what StartRun's alignment released. (Not "everything released so far": on a busy machine the reader that StartRun
+	// launches may already have taken and released its first read before this is called.)
+	return k.alignRel
+}
+
+// c04GoroutineID returns the number of the calling goroutine.
+func c04GoroutineID() int64 {
+	var buf [64]byte
+	n := runtime.Stack(buf[:], false)
+	f := strings.Fields(string(buf[:n]))
+	if len(f) < 2 {
+		return -1
+	}
+	id, _ := strconv.ParseInt(f[1], 10, 64)
+	return id
 }
 
 func (k *c04Card) nextIdx() int {
@@ -419,6 +441,9 @@ func c04RunOn(ls *LanceroSource, c c04Case) (v vVerdict) {
 		ls.writingState.externalTriggerTicker.Stop()
 		ls.writingState.dataDropTicker.Stop()
 	}()
+	card.mu.Lock()
+	card.alignGID = c04GoroutineID()
+	card.mu.Unlock()
 	if err := ls.StartRun(); err != nil {
 		closeIfOpen(ls.abortSelf)
 		return vFailf("startrun", "StartRun: %v", err)
